@@ -135,7 +135,7 @@ pub fn cases(max: usize) -> BoxedStrategy<Case> {
         .boxed()
 }
 
-const PROLOGUE: &str = "probe() { declare -p v w a m 2>&1; }\nrd0() { probe; childenv v w; }\nrd1() { rd0; }\nrd2() { ( probe ); childenv v w | cat; }\nv=g0; declare -a a=(a0 a1); declare -A m=([k]=mk)\n";
+const PROLOGUE: &str = "probe() { declare -p v w a m 2>&1; }\nrd0() { probe; childenv v w; }\nrd1() { rd0; }\nrd2() { ( probe ); childenv v w | cat; }\nrd3() { unset w; probe; childenv v w; }\nrd4() { unset w; w=n4; probe; }\nrd5() { unset v; probe; v=n5; probe; }\nv=g0; declare -a a=(a0 a1); declare -A m=([k]=mk)\n";
 
 fn render_act(a: &Act, out: &mut String) {
     match a {
@@ -143,7 +143,9 @@ fn render_act(a: &Act, out: &mut String) {
         Act::Call(i) => out.push_str(&format!("g{i}")),
         // temporary assignments go on reader functions only: what a callee that *writes* a temporarily
         // assigned name leaves behind differs between bash versions and modes
-        Act::TempCall(asg, i) => out.push_str(&format!("{asg} rd{}", i % 3)),
+        // rd3..rd5 unset the (possibly temporary) name first: the unset must uncover what the temporary
+        // assignment shadowed, and a later assignment must land there (added with seeded change C09-3)
+        Act::TempCall(asg, i) => out.push_str(&format!("{asg} rd{}", (i + asg.len()) % 6)),
     }
 }
 
